@@ -92,6 +92,7 @@ KeyPool(nm) ==
     [] nm = "K5"  -> [kid |-> "k5", cid |-> 7, suites |-> {"s2"},           pub |-> "pub",  cfg |-> "c5", dec |-> TRUE]
     [] nm = "K6"  -> [kid |-> "k6", cid |-> 7, suites |-> {"s1","s2","s3"}, pub |-> "pub",  cfg |-> "c6", dec |-> TRUE]
     [] nm = "K7"  -> [kid |-> "k7", cid |-> 9, suites |-> {"s1","s4"},      pub |-> "pub",  cfg |-> "c7", dec |-> TRUE]   \* its config also lists s4, a suite whose KDF the server cannot run
+    [] nm = "K8"  -> [kid |-> "k8", cid |-> 7, suites |-> {"s4","s1","s2"}, pub |-> "pub", cfg |-> "c8", dec |-> TRUE]   \* its config lists the unimplemented-KDF suite s4 FIRST, then suites the server can serve
     [] nm = "KP"  -> [kid |-> "kp", cid |-> 10, suites |-> {"s1","s2","s3"}, pub |-> "pub", cfg |-> "cp", dec |-> FALSE]  \* a held key for a KEM the server's HPKE does not implement (P-256), under an id no client of the model uses: never a candidate
     [] nm = "KX"  -> [kid |-> "kx", cid |-> 7, suites |-> {"s1","s2","s3"}, pub |-> "pub",  cfg |-> "cx", dec |-> FALSE]  \* a held entry whose config bytes do not decode (unknown version): ignored
     [] nm = "K1b" -> [kid |-> "k1", cid |-> 7, suites |-> {"s1","s2","s3"}, pub |-> "pub",  cfg |-> "c1b", dec |-> TRUE]  \* same key material, other config bytes
